@@ -1,4 +1,5 @@
 import Dawn.Proofs.MvsFuel
+import Dawn.Proofs.MvsRef
 /-!
 # C10 — the resolved build list is the minimal-version-selection solution
 
@@ -284,12 +285,23 @@ theorem C11_previous_counterexample (fuel : Nat) (rq : Reqs) (e : Env) (maxv : S
     stepDown fuel rq (previousD13 e) maxv n st ⟨p, .root⟩ = .error .fuel :=
   ⟨previousD13_fixpoint e p hp hloc, stepDown_D13_spins fuel rq e maxv p hp hloc st hex hadded n⟩
 
+/-- C11, queries by ref: what `resolveRefQuery` (modelled over an abstract commit history: refs, revisions, the order
+`History()` walks ancestors, the tagged revisions) resolves to is a version of the queried project; it is the tag itself
+when the closest tagged ancestor is the revision the ref names; otherwise it sorts strictly ABOVE the closest tagged
+ancestor's version — asking for a revision that descends from a tag is never a step below that tag. -/
+theorem C11_ref_resolution (h : History) (major path ref revId : String) (rev : Revision) (m : Mod)
+    (href : h.refs ref = some revId) (hrev : h.revision revId = some rev)
+    (hres : resolveRefQuery h major path ref = .ok m) :
+    m.path = path ∧
+    ∀ t tr, closestTag h major path (h.ancestors revId) = some (t, tr) →
+      (tr = rev.id → m = t) ∧ (tr ≠ rev.id → ∀ s, t.ver = .sv s → cmpVersion t.ver m.ver = .lt) :=
+  resolveRefQuery_spec href hrev hres
+
 /-! ### total correctness: fuel sufficiency in finite universes (the C11 counterpart of `C10_fuel`)
 
 `U` is any finite list of modules that contains the main project and is closed under requirements; `deg` counts a
-module's requirements. With these, the partial-correctness theorems above become total for `Tidy` and `UpgradeAll`; for
-`get` the pieces are all here (`C10_fuel` for its build lists, `C11_fuel_add` and `C11_fuel_downgrade_loop` for
-`mvs.Downgrade`, `op_reqList_fuel` for the final `ReqList`) but they are not assembled into one statement. -/
+module's requirements. With these, the partial-correctness theorems above become total for `Tidy` and `UpgradeAll`; and for
+`get` (`C11_fuel_get`: one universe and one bound for its three branches). -/
 
 /-- `Tidy` answers — requirements or an error, never `Err.fuel` — once the fuel exceeds `1 + |U| + Σ_{n∈U} (2 + deg n)` -/
 theorem C11_fuel_tidy (e : Env) (c : Config) (U : List Mod) (hroot : rootMod ∈ U)
@@ -307,6 +319,22 @@ theorem C11_fuel_upgrade_all (e : Env) (c : Config) (U : List Mod) (hroot : root
     (hf2 : 1 + U.length + (U.map fun n => 2 + deg (dawnReqs e (c.map (·.2))) n).sum ≤ fuel) :
     UpgradeAll fuel e c ≠ .error .fuel :=
   transformReqs_fuel (op_reqList_fuel _ _ (some (upAllFn e)) rootMod U hroot hU hU' fuel hf1 hf2)
+
+/-- C11, `get` as a total function: in ONE finite universe `U` that contains the main project, is closed under requirements,
+contains whatever the query can resolve to (together with the placeholder `p@none` that `mvs.Upgrade` adds for a project
+that is not yet required) and whatever `Reqs.Previous` answers for its modules other than the main project (strictly decreasing or `"none"`), `Get`
+never answers `Err.fuel` once the fuel reaches `getBound` = 1 + Σ_{n∈U} (3 + |U| + 2·deg n) — whichever branch it takes
+(add, no-op, upgrade with its overridden exploration, downgrade with `add`, the loop `for excluded[r]` and its two
+re-resolutions, and the final `ReqList`). With this, `C11_upgrade`, `C11_upgrade_exact`, `C11_downgrade`, `C11_names` and
+`C11_get_idem` are statements about a function that answers. -/
+theorem C11_fuel_get (fuel : Nat) (e : Env) (c : Config) (q : String) (U : List Mod) (hroot : rootMod ∈ U)
+    (hU : ∀ n ∈ U, ∀ l, (dawnReqs e (c.map (·.2))).required n = some l → ∀ m ∈ l, m ∈ U)
+    (hres : ∀ bl version, resolveVersionQuery e bl (parseVersionQuery q) = .ok version →
+      version ∈ U ∧ (⟨version.path, .none⟩ : Mod) ∈ U)
+    (hprev : ∀ r p, r ∈ U → r.path ≠ "" → previous e r = some p → p.ver = .none ∨ (cmpVersion p.ver r.ver = .lt ∧ p ∈ U))
+    (hf : getBound (dawnReqs e (c.map (·.2))) U ≤ fuel) :
+    Get fuel e c q ≠ .error .fuel :=
+  Get_fuel fuel e c q U hroot hU hres hprev hf
 
 /-- `mvs.Downgrade`'s recursion `add` answers once the fuel reaches `Σ_{n∈U} (3 + 2·deg n)` -/
 theorem C11_fuel_add (rq : Reqs) (maxv : Sel) (U : List Mod)
@@ -366,6 +394,26 @@ def GetD13 (fuel : Nat) (e : Env) (c : Config) (query : String) : Except Err Con
 def U13 : List Mod := [rootMod, ⟨A, v 1 1 0⟩, ⟨B, v 1 1 0⟩, ⟨B, v 1 2 0⟩, ⟨B, v 1 3 0⟩]
 example : Tidy 19 env13 cfg13 ≠ .error .fuel := C11_fuel_tidy env13 cfg13 U13 (by decide) (by decide) 19 (by decide)
 
+/-- the hypotheses of `C11_fuel_get` on D13's universe and failing input (a downgrade): the five modules, plus the
+placeholder `b@none`; the bound is 1 + 6·(3 + 6) + 2·3 = 61 -/
+def U13g : List Mod := U13 ++ [⟨B, .none⟩]
+example : Get 61 env13 cfg13 "github.com/v/u/b@v1.1.0" ≠ .error .fuel := by
+  have hprev : ∀ r ∈ U13g, (match previous env13 r with
+      | some p => decide (r.path = "" ∨ p.ver = .none ∨ (cmpVersion p.ver r.ver = .lt ∧ p ∈ U13g))
+      | .none => true) = true := by decide
+  apply C11_fuel_get 61 env13 cfg13 _ U13g (by decide) (by decide) _
+    (fun r p hr hne hp => by
+      have := hprev r hr
+      rw [hp] at this
+      rcases (by simpa using this : r.path = "" ∨ p.ver = .none ∨ (cmpVersion p.ver r.ver = .lt ∧ p ∈ U13g)) with h1 | h1
+      · exact absurd h1 hne
+      · exact h1) (by decide)
+  intro bl version h
+  have key : resolveVersionQuery env13 bl (parseVersionQuery "github.com/v/u/b@v1.1.0") = .ok ⟨B, v 1 1 0⟩ := by rfl
+  rw [key] at h
+  cases h
+  exact ⟨by decide, by decide⟩
+
 /-- D13 on its failing input: the fixed model drops `a`, which has no older tag, and lands on b v1.1.0 … -/
 example : Get 30 env13 cfg13 "github.com/v/u/b@v1.1.0" = .ok [("b", ⟨B, v 1 1 0⟩)] := by rfl
 /-- … the old one does not return -/
@@ -413,6 +461,25 @@ example : ∀ nv ∈ [[⟨P1, v 1 4 0⟩, ⟨P0, v 1 4 0⟩, ⟨P0, v 1 2 0⟩],
     ([("n0", ⟨P0, v 1 4 0⟩), ("n1", ⟨P0, v 1 2 0⟩)] : Config).filterMap
       (fun nr => (pickFor nr.2 nv .none).map fun w => (nr.1, w)) = [("n0", ⟨P0, v 1 4 0⟩), ("n1", ⟨P0, v 1 2 0⟩)] := by
   decide
+
+/-- a history: commit 1 tagged p v1.0.0, commit 2 tagged p v1.4.0, commit 3 untagged; `main` names 3, `rel` names 2 -/
+def hist33 : History :=
+  { refs := fun r => if r = "main" then some "3" else if r = "rel" then some "2" else .none
+    revision := fun id => some ⟨id, "1970010100" ++ (if id = "3" then "0500" else "0320"), id⟩
+    ancestors := fun id => if id = "3" then ["3", "2", "1"] else if id = "2" then ["2", "1"] else ["1"]
+    tagRevs := [(⟨P0, v 1 0 0⟩, "1"), (⟨P0, v 1 4 0⟩, "2")] }
+
+/-- hypotheses of `C11_ref_resolution`: the branch ahead of the newest tag resolves above it, the branch at the tag to the tag -/
+example : resolveRefQuery hist33 "" P0 "main" = .ok ⟨P0, .sv ⟨1, 4, 1, [.num 0, .str "19700101000500-3".toList]⟩⟩ := by rfl
+example : resolveRefQuery hist33 "" P0 "rel" = .ok ⟨P0, v 1 4 0⟩ := by rfl
+
+/-- D33 (fixed; regression witness): the search that did not stop at the first tagged ancestor based the pseudo-version
+on the OLDEST tag — below the tag the revision descends from — and did not recognise a tagged revision -/
+theorem C11_ref_counterexample :
+    resolveRefQueryD33 hist33 "" P0 "main" = .ok ⟨P0, .sv ⟨1, 0, 1, [.num 0, .str "19700101000500-3".toList]⟩⟩ ∧
+    cmpVersion (.sv ⟨1, 0, 1, [.num 0, .str "19700101000500-3".toList]⟩) (v 1 4 0) = .lt ∧
+    resolveRefQueryD33 hist33 "" P0 "rel" = .ok ⟨P0, .sv ⟨1, 0, 1, [.num 0, .str "19700101000320-2".toList]⟩⟩ := by
+  refine ⟨by rfl, by decide, by rfl⟩
 
 /-- D15's universe: p0 v1.1.0 → p1 v1.2.0; p0 v1.2.0; p1 v1.1.0; p1 v1.2.0 -/
 def summary15 : Mod → Option Summary
